@@ -536,49 +536,9 @@ func c08Isolation(c *Ctx) {
 		r.Check(strings.HasPrefix(npath(call.Common().Args[0]), "message.DkgRoundID") || npath(call.Common().Args[len(call.Common().Args)-2]) == "message.DkgRoundID", "C08/R3", "node.processMessage:GetFSMInstance:round", "the instance loaded is the envelope's round", c.PosOf(call), "loaded round "+npath(call.Common().Args[len(call.Common().Args)-2]))
 	}
 	checkStores(c, []storeSpec{
-		{"C08/R3", "node.processSignature:DKGRoundID", [3]string{pkgNode, "BaseNodeService", "processSignature"}, "ReconstructedSignature", "DKGRoundID", `^message\.DkgRoundID$`, "a received signature is filed under the envelope's round, whatever its body says", "the body's round id is trusted: a message verified under one round writes into another round's signature store"},
-		{"C08/R3", "node.processSignature:Username", [3]string{pkgNode, "BaseNodeService", "processSignature"}, "ReconstructedSignature", "Username", `^message\.SenderAddr$`, "a received signature is attributed to the verified sender", "attribution taken from the body"},
 		{"C08/R3", "node.processSignatureProposal:DKGRoundID", [3]string{pkgNode, "BaseNodeService", "processSignatureProposal"}, "ReconstructedSignature", "DKGRoundID", `^message\.DkgRoundID$`, "the batch record is filed under the envelope's round", "other round id"},
 	})
-	// the overwrite in processSignature is unconditional (every element)
-	if ps := c.Fn("C08/R3", pkgNode, "BaseNodeService", "processSignature"); ps != nil {
-		var stores []ssa.Instruction
-		var iter ssa.Instruction
-		ssax.Instrs(ps, func(in ssa.Instruction) {
-			if st, ok := in.(*ssa.Store); ok {
-				if fa, ok := st.Addr.(*ssa.FieldAddr); ok && ssax.FieldOf(fa).Name() == "DKGRoundID" {
-					stores = append(stores, in)
-				}
-			}
-			if ia, ok := in.(*ssa.IndexAddr); ok && iter == nil {
-				iter = ia
-			}
-		})
-		save := ssax.Calls(ps, false, func(ci ssa.CallInstruction) bool {
-			o := ssax.CalleeObj(ci)
-			return o != nil && o.Name() == "SaveSignatures"
-		})
-		ok := len(stores) == 1 && len(save) == 1
-		if ok {
-			// no condition inside the loop can skip the overwrite
-			for _, cd := range ssax.CondsBetween(ps, stores[0].Block().Instrs[0], stores[0]) {
-				if cd.Op != token.LSS {
-					ok = false
-				}
-			}
-			// the store's block is the loop body reached directly from the loop bound test
-			for _, cd := range ssax.Conds(ps) {
-				if cd.Op != token.LSS && cd.If.Block() != ps.Blocks[0] {
-					// any other branch in the function apart from the unmarshal error check
-					p := ssax.Path(cd.X)
-					if !strings.Contains(p, "json.Unmarshal(") {
-						ok = false
-					}
-				}
-			}
-		}
-		r.Check(ok, "C08/R3", "node.processSignature:overwrite-unconditional", "the round id and sender of every received signature entry are overwritten unconditionally", c.Pos(ps.Pos()), "the overwrite is conditional or missing")
-	}
+	c08SignatureAttribution(c, "C08/R3")
 	// SaveFSM replaces exactly one entry
 	if sf := c.Fn("C08/R3", "client/services/fsmservice", "FSM", "SaveFSM"); sf != nil {
 		n := 0
@@ -631,5 +591,55 @@ func c08Addressing(c *Ctx) {
 		}
 		r.Check(len(okEdges) == 2 && !ssax.ReachableAvoiding(fn, calls[0], okEdges, nil), "C08/R4", "node."+spec.fn+":addressed-only", "a message is handled only if RecipientAddr is empty or equals this node's user name", c.PosOf(calls[0]),
 			sprintf("%d recipient tests recognised; the handler is reachable without passing one of them: messages addressed to other participants (private deals) would change this node's view", len(okEdges)))
+	}
+}
+
+// c08SignatureAttribution: a received `signature_reconstructed` entry is filed under the envelope's round and attributed to
+// the verified sender, unconditionally for every entry (shared by C03: the record kept next to a proposal's payload can
+// be replaced only by its author).
+func c08SignatureAttribution(c *Ctx, rule string) {
+	r := c.R
+	checkStores(c, []storeSpec{
+		{rule, "node.processSignature:DKGRoundID", [3]string{pkgNode, "BaseNodeService", "processSignature"}, "ReconstructedSignature", "DKGRoundID", `^message\.DkgRoundID$`, "a received signature is filed under the envelope's round, whatever its body says", "the body's round id is trusted: a message verified under one round writes into another round's signature store"},
+		{rule, "node.processSignature:Username", [3]string{pkgNode, "BaseNodeService", "processSignature"}, "ReconstructedSignature", "Username", `^message\.SenderAddr$`, "a received signature is attributed to the verified sender", "attribution taken from the body"},
+	})
+	// the overwrite in processSignature is unconditional (every element)
+	if ps := c.Fn(rule, pkgNode, "BaseNodeService", "processSignature"); ps != nil {
+		var stores []ssa.Instruction
+		var iter ssa.Instruction
+		ssax.Instrs(ps, func(in ssa.Instruction) {
+			if st, ok := in.(*ssa.Store); ok {
+				if fa, ok := st.Addr.(*ssa.FieldAddr); ok && ssax.FieldOf(fa).Name() == "DKGRoundID" {
+					stores = append(stores, in)
+				}
+			}
+			if ia, ok := in.(*ssa.IndexAddr); ok && iter == nil {
+				iter = ia
+			}
+		})
+		save := ssax.Calls(ps, false, func(ci ssa.CallInstruction) bool {
+			o := ssax.CalleeObj(ci)
+			return o != nil && o.Name() == "SaveSignatures"
+		})
+		ok := len(stores) == 1 && len(save) == 1
+		if ok {
+			// no condition inside the loop can skip the overwrite
+			for _, cd := range ssax.CondsBetween(ps, stores[0].Block().Instrs[0], stores[0]) {
+				if cd.Op != token.LSS {
+					ok = false
+				}
+			}
+			// the store's block is the loop body reached directly from the loop bound test
+			for _, cd := range ssax.Conds(ps) {
+				if cd.Op != token.LSS && cd.If.Block() != ps.Blocks[0] {
+					// any other branch in the function apart from the unmarshal error check
+					p := ssax.Path(cd.X)
+					if !strings.Contains(p, "json.Unmarshal(") {
+						ok = false
+					}
+				}
+			}
+		}
+		r.Check(ok, rule, "node.processSignature:overwrite-unconditional", "the round id and sender of every received signature entry are overwritten unconditionally", c.Pos(ps.Pos()), "the overwrite is conditional or missing")
 	}
 }
